@@ -243,10 +243,20 @@ def to_second_order(rng, m, kind, curved=True):
     if curved:
         p = m2.p.copy()
         nv = m.p.shape[1]
-        # perturb only the non-vertex nodes slightly
+        # mild curvature: move the non-vertex nodes by at most ~3% of the shortest edge (dyadic step),
+        # so that every cell stays a valid (invertible) isoparametric image
+        ed = m.edges if m.dim() == 3 else m.facets
+        elen = np.sqrt(((m.p[:, ed[0]] - m.p[:, ed[1]]) ** 2).sum(axis=0))
+        # smallest "height" of a cell: measure / (longest edge)^(d-1), so that thin cells stay valid
+        d = m.dim()
+        X = np.asarray(m.elem.refdom.p, dtype=float).mean(axis=1)[:, None]
+        det = np.abs(m.mapping().detDF(X))[:, 0]
+        t2e = m.t2e if d == 3 else m.t2f
+        hmin = float(min(elen.min(), (det / elen[t2e].max(axis=0) ** (d - 1)).min()))
+        step = 2.0 ** np.floor(np.log2(hmin / 32))
         for j in range(nv, p.shape[1]):
             if rng.random() < 0.5:
-                p[:, j] += np.array([rng.randint(-1, 1) for _ in range(p.shape[0])]) / 64
+                p[:, j] += np.array([rng.randint(-1, 1) for _ in range(p.shape[0])]) * step
         m2 = cls2(p, m2.t)
     return m2
 
